@@ -1,15 +1,1368 @@
-//! Engine `reopen` — not built yet (stub).
+//! Engine `reopen` (C09): histories through the public API (`Database`, `Session`) cut at arbitrary points by a clean
+//! close (`drop(db)` or `flush()` + drop) and `Database::open` with another configuration, against the logical MVCC
+//! model `Model/Db.lean` extended by `Model/Reopen.lean` (catalog with DDL, persistent counters, aborted set, close/open).
+//! Case syntax: see `cfg/C09.py`.
 use super::{Case, Engine, Tier};
 use crate::rng::Rng;
+use axmosdb::runtime::ddl::DdlResult;
+use axmosdb::runtime::QueryResult;
+use axmosdb::tcp::session::Session;
+use axmosdb::{DBConfig, DataType, Database};
+use std::collections::BTreeMap;
+use std::sync::atomic::{AtomicU64, Ordering};
 
 pub struct ReopenEngine;
 
-impl Engine for ReopenEngine {
-    fn gen_cases(&self, _rng: &mut Rng, _tier: Tier) -> Vec<Case> {
-        Vec::new()
+// ------------------------------------------------------------------------------------------------ case syntax
+
+#[derive(Clone, Debug, PartialEq)]
+pub enum Val {
+    Int(i64),
+    Null,
+    Text(String),
+    /// `^ab1500`: the unit repeated n times (a value far larger than a page)
+    Rep(String, usize),
+}
+
+#[derive(Clone, Debug)]
+pub struct Col {
+    pub name: String,
+    pub ty: String, // big | int | text
+    pub not_null: bool,
+    pub unique: bool,
+}
+
+#[derive(Clone, Debug)]
+pub struct Table {
+    pub name: String,
+    pub cols: Vec<Col>,
+}
+
+#[derive(Clone, Debug)]
+pub struct Pred {
+    pub col: String,
+    pub op: String, // eq ne lt le gt ge
+    pub val: Val,
+}
+
+#[derive(Clone, Debug)]
+pub enum Stmt {
+    Sel { table: String, pred: Option<Pred> },
+    Ins { table: String, rows: Vec<Vec<Val>> },
+    Upd { table: String, col: String, add: bool, val: Val, pred: Option<Pred> },
+    Del { table: String, pred: Option<Pred> },
+}
+
+#[derive(Clone, Debug)]
+pub enum Op {
+    Begin(String),
+    Commit(String),
+    Rollback(String),
+    Drop(String),
+    Exec(String, Stmt),
+    Auto(Stmt),
+    Batch(Vec<Stmt>),
+    Create(Table),
+    DropTable(String),
+    Vacuum,
+    /// n empty transactions (session begin + commit)
+    Burn(u64),
+    /// one empty committed transaction; prints its id
+    Tid,
+    /// close (`flush` = explicit flush before the drop) and open with (page_size, cache, pool)
+    Reopen { how: How, cfg: Cfg },
+}
+
+/// how the database is closed: `drop(db)`; `flush()` then drop; `flush()` and then everything (sessions still open,
+/// the handle) is leaked as if the process had ended without running destructors
+#[derive(Clone, Copy, Debug, PartialEq)]
+pub enum How {
+    Drop,
+    Flush,
+    Leak,
+}
+
+/// the five fields of `DBConfig`
+#[derive(Clone, Copy, Debug, PartialEq)]
+pub struct Cfg {
+    pub page_size: usize,
+    pub cache: usize,
+    pub pool: usize,
+    pub min_keys: usize,
+    pub siblings: usize,
+}
+
+#[derive(Clone, Debug)]
+pub struct Head {
+    pub cfg: Cfg,
+}
+
+fn parse_val(s: &str) -> Option<Val> {
+    if s == "null" {
+        return Some(Val::Null);
     }
-    fn exec(&mut self, _line: &str) -> String {
-        "unimplemented".into()
+    if let Some(r) = s.strip_prefix('^') {
+        let unit: String = r.chars().take_while(|c| c.is_ascii_lowercase()).collect();
+        let num = &r[unit.len()..];
+        if unit.is_empty() || num.is_empty() {
+            return None;
+        }
+        let n: usize = num.parse().ok()?;
+        if n.to_string() != num || n == 0 || n > 100_000 {
+            return None;
+        }
+        return Some(Val::Rep(unit, n));
+    }
+    if s.len() >= 2 && s.starts_with('\'') && s.ends_with('\'') {
+        let body = &s[1..s.len() - 1];
+        if body.chars().all(|c| c.is_ascii_lowercase()) {
+            return Some(Val::Text(body.to_string()));
+        }
+        return None;
+    }
+    let n: i64 = s.parse().ok()?;
+    if n.to_string() != s || n.abs() > 1_000_000_000 {
+        return None;
+    }
+    Some(Val::Int(n))
+}
+
+fn ident(s: &str) -> bool {
+    !s.is_empty() && s.chars().all(|c| c.is_ascii_lowercase() || c.is_ascii_digit()) && s.chars().next().unwrap().is_ascii_lowercase()
+}
+
+fn parse_table(spec: &str) -> Option<Table> {
+    let (name, rest) = spec.split_once('(')?;
+    let rest = rest.strip_suffix(')')?;
+    if !ident(name) {
+        return None;
+    }
+    let mut cols = Vec::new();
+    for c in rest.split(',') {
+        let (cn, ty) = c.split_once(':')?;
+        let mut ty = ty.to_string();
+        let mut not_null = false;
+        let mut unique = false;
+        loop {
+            if let Some(t) = ty.strip_suffix('!') {
+                not_null = true;
+                ty = t.to_string();
+            } else if let Some(t) = ty.strip_suffix('*') {
+                unique = true;
+                ty = t.to_string();
+            } else {
+                break;
+            }
+        }
+        if !ident(cn) || !matches!(ty.as_str(), "big" | "int" | "text") {
+            return None;
+        }
+        cols.push(Col { name: cn.to_string(), ty, not_null, unique });
+    }
+    if cols.is_empty() {
+        return None;
+    }
+    Some(Table { name: name.to_string(), cols })
+}
+
+fn parse_pred(ws: &[&str]) -> Option<Option<Pred>> {
+    match ws {
+        [] => Some(None),
+        ["where", col, op, val] => {
+            if !ident(col) || !matches!(*op, "eq" | "ne" | "lt" | "le" | "gt" | "ge") {
+                return None;
+            }
+            Some(Some(Pred { col: col.to_string(), op: op.to_string(), val: parse_val(val)? }))
+        }
+        _ => None,
+    }
+}
+
+fn parse_stmt(ws: &[&str]) -> Option<Stmt> {
+    match ws {
+        ["sel", t, rest @ ..] if ident(t) => Some(Stmt::Sel { table: t.to_string(), pred: parse_pred(rest)? }),
+        ["del", t, rest @ ..] if ident(t) => Some(Stmt::Del { table: t.to_string(), pred: parse_pred(rest)? }),
+        ["upd", t, col, how, val, rest @ ..] if ident(t) && ident(col) && (*how == "set" || *how == "add") => Some(Stmt::Upd {
+            table: t.to_string(),
+            col: col.to_string(),
+            add: *how == "add",
+            val: parse_val(val)?,
+            pred: parse_pred(rest)?,
+        }),
+        ["ins", t, rest @ ..] if ident(t) && !rest.is_empty() => {
+            let mut rows = Vec::new();
+            for r in rest.split(|w| *w == ",") {
+                if r.is_empty() {
+                    return None;
+                }
+                let vals: Option<Vec<Val>> = r.iter().map(|v| parse_val(v)).collect();
+                rows.push(vals?);
+            }
+            Some(Stmt::Ins { table: t.to_string(), rows })
+        }
+        _ => None,
+    }
+}
+
+fn sess_name(s: &str) -> bool {
+    s.len() >= 2 && s.starts_with('s') && s[1..].chars().all(|c| c.is_ascii_digit())
+}
+
+fn canon_usize(s: &str, max: usize) -> Option<usize> {
+    let n: usize = s.parse().ok()?;
+    if n.to_string() != s || n > max {
+        return None;
+    }
+    Some(n)
+}
+
+fn page_size_ok(n: usize) -> bool {
+    matches!(n, 4096 | 8192 | 16384 | 32768 | 65536)
+}
+
+fn parse_op(s: &str) -> Option<Op> {
+    let ws: Vec<&str> = s.split_whitespace().collect();
+    match ws.as_slice() {
+        ["db", "batch", rest @ ..] => {
+            let mut stmts = Vec::new();
+            for part in rest.split(|w| *w == "&") {
+                stmts.push(parse_stmt(part)?);
+            }
+            Some(Op::Batch(stmts))
+        }
+        ["db", rest @ ..] => Some(Op::Auto(parse_stmt(rest)?)),
+        ["create", spec] => Some(Op::Create(parse_table(spec)?)),
+        ["droptable", t] if ident(t) => Some(Op::DropTable(t.to_string())),
+        ["vacuum"] => Some(Op::Vacuum),
+        ["tid"] => Some(Op::Tid),
+        ["burn", n] => {
+            let n = canon_usize(n, 20_000)?;
+            if n == 0 {
+                return None;
+            }
+            Some(Op::Burn(n as u64))
+        }
+        ["reopen", how, ps, cache, pool, mk, sib] if matches!(*how, "drop" | "flush" | "leak") => {
+            let cfg = parse_cfg(ps, cache, pool, mk, sib)?;
+            let how = match *how {
+                "drop" => How::Drop,
+                "flush" => How::Flush,
+                _ => How::Leak,
+            };
+            Some(Op::Reopen { how, cfg })
+        }
+        [s, "begin"] if sess_name(s) => Some(Op::Begin(s.to_string())),
+        [s, "commit"] if sess_name(s) => Some(Op::Commit(s.to_string())),
+        [s, "rollback"] if sess_name(s) => Some(Op::Rollback(s.to_string())),
+        [s, "drop"] if sess_name(s) => Some(Op::Drop(s.to_string())),
+        [s, rest @ ..] if sess_name(s) => Some(Op::Exec(s.to_string(), parse_stmt(rest)?)),
+        _ => None,
+    }
+}
+
+/// page size ∈ {4,8,16,32,64} KiB, 16 ≤ cache ≤ 60000, 1 ≤ pool ≤ 16, 3 ≤ min keys ≤ 8 (`Btree::new` asserts ≥ 3), 1 ≤ siblings ≤ 4
+fn parse_cfg(ps: &str, cache: &str, pool: &str, mk: &str, sib: &str) -> Option<Cfg> {
+    let c = Cfg {
+        page_size: canon_usize(ps, 65536)?,
+        cache: canon_usize(cache, 60_000)?,
+        pool: canon_usize(pool, 16)?,
+        min_keys: canon_usize(mk, 8)?,
+        siblings: canon_usize(sib, 4)?,
+    };
+    if !page_size_ok(c.page_size) || c.cache < 16 || c.pool == 0 || c.min_keys < 3 || c.siblings == 0 {
+        return None;
+    }
+    Some(c)
+}
+
+/// `<page_size> <cache> <pool> <min_keys> <siblings>`: the configuration the database is created with
+fn parse_head(s: &str) -> Option<Head> {
+    let ws: Vec<&str> = s.split_whitespace().collect();
+    match ws.as_slice() {
+        [ps, cache, pool, mk, sib] => Some(Head { cfg: parse_cfg(ps, cache, pool, mk, sib)? }),
+        _ => None,
+    }
+}
+
+/// Well-formedness beyond the grammar, decided on the op list alone (the Lean driver applies the same rule):
+/// DDL and VACUUM are issued only while no session is open (`reopen` ends every session).
+fn well_formed(ops: &[Op]) -> bool {
+    let mut open: Vec<&str> = Vec::new();
+    for op in ops {
+        match op {
+            Op::Begin(s) => {
+                if !open.contains(&s.as_str()) {
+                    open.push(s);
+                }
+            }
+            Op::Commit(s) | Op::Rollback(s) | Op::Drop(s) => open.retain(|x| x != s),
+            Op::Create(_) | Op::DropTable(_) | Op::Vacuum => {
+                if !open.is_empty() {
+                    return false;
+                }
+            }
+            Op::Reopen { .. } => open.clear(),
+            _ => {}
+        }
+    }
+    true
+}
+
+pub fn parse_case(line: &str) -> Option<(Head, Vec<Op>)> {
+    let body = line.trim().strip_prefix("reopen ")?;
+    let (head, ops) = body.split_once('|')?;
+    let head = parse_head(head)?;
+    let mut out = Vec::new();
+    let ops = ops.trim();
+    if !ops.is_empty() {
+        for o in ops.split(" ; ") {
+            out.push(parse_op(o)?);
+        }
+    }
+    if !well_formed(&out) {
+        return None;
+    }
+    Some((head, out))
+}
+
+// ------------------------------------------------------------------------------------------------ SQL text
+
+fn text_of(v: &Val) -> Option<String> {
+    match v {
+        Val::Text(s) => Some(s.clone()),
+        Val::Rep(u, n) => Some(u.repeat(*n)),
+        _ => None,
+    }
+}
+
+fn sql_val(v: &Val) -> String {
+    match v {
+        Val::Int(n) => n.to_string(),
+        Val::Null => "NULL".into(),
+        other => format!("'{}'", text_of(other).unwrap()),
+    }
+}
+
+fn sql_pred(p: &Option<Pred>) -> String {
+    match p {
+        None => String::new(),
+        Some(p) => {
+            let op = match p.op.as_str() {
+                "eq" => "=",
+                "ne" => "<>",
+                "lt" => "<",
+                "le" => "<=",
+                "gt" => ">",
+                _ => ">=",
+            };
+            format!(" WHERE {} {} {}", p.col, op, sql_val(&p.val))
+        }
+    }
+}
+
+pub fn sql_of(s: &Stmt) -> String {
+    match s {
+        Stmt::Sel { table, pred } => format!("SELECT * FROM {}{}", table, sql_pred(pred)),
+        Stmt::Del { table, pred } => format!("DELETE FROM {}{}", table, sql_pred(pred)),
+        Stmt::Upd { table, col, add, val, pred } => {
+            if *add {
+                format!("UPDATE {} SET {} = {} + {}{}", table, col, col, sql_val(val), sql_pred(pred))
+            } else {
+                format!("UPDATE {} SET {} = {}{}", table, col, sql_val(val), sql_pred(pred))
+            }
+        }
+        Stmt::Ins { table, rows } => {
+            let rs: Vec<String> =
+                rows.iter().map(|r| format!("({})", r.iter().map(sql_val).collect::<Vec<_>>().join(", "))).collect();
+            format!("INSERT INTO {} VALUES {}", table, rs.join(", "))
+        }
+    }
+}
+
+fn sql_create(t: &Table) -> String {
+    let mut cols: Vec<String> = Vec::new();
+    let mut uniq: Vec<String> = Vec::new();
+    for c in &t.cols {
+        let ty = match c.ty.as_str() {
+            "big" => "BIGINT",
+            "int" => "INT",
+            _ => "TEXT",
+        };
+        cols.push(format!("{} {}{}", c.name, ty, if c.not_null { " NOT NULL" } else { "" }));
+        if c.unique {
+            uniq.push(format!("UNIQUE({})", c.name));
+        }
+    }
+    cols.extend(uniq);
+    format!("CREATE TABLE {} ({})", t.name, cols.join(", "))
+}
+
+// ------------------------------------------------------------------------------------------------ execution
+
+fn err_class(msg: &str) -> &'static str {
+    let m = msg.to_ascii_lowercase();
+    if m.contains("conflict") {
+        "conflict"
+    } else if m.contains("constraint validation error") || m.contains("unique") || m.contains("not null") || m.contains("null constraint") {
+        "constraint"
+    } else if m.contains("not found") || m.contains("does not exist") || m.contains("notfound") || m.contains("invalid object name") {
+        "notfound"
+    } else if m.contains("already exists") {
+        "exists"
+    } else if m.contains("type error") || m.contains("cast") || m.contains("type mismatch") || m.contains("datatype") {
+        "type"
+    } else {
+        "other"
+    }
+}
+
+/// FNV-1a, 32 bit, over the bytes of a long text (the Lean driver computes the same)
+fn fnv32(s: &[u8]) -> u32 {
+    let mut h: u32 = 0x811c9dc5;
+    for b in s {
+        h ^= *b as u32;
+        h = h.wrapping_mul(0x01000193);
+    }
+    h
+}
+
+fn show_text(b: &[u8]) -> String {
+    if b.len() > 40 {
+        format!("~{}:{}", b.len(), fnv32(b))
+    } else {
+        format!("'{}'", String::from_utf8_lossy(b))
+    }
+}
+
+fn show_dt(d: &DataType) -> String {
+    match d {
+        DataType::Null => "null".into(),
+        DataType::Int(v) => v.value().to_string(),
+        DataType::BigInt(v) => v.value().to_string(),
+        DataType::UInt(v) => v.value().to_string(),
+        DataType::BigUInt(v) => v.value().to_string(),
+        DataType::Blob(b) => show_text(b.data().unwrap_or(&[])),
+        other => format!("?{:?}", other),
+    }
+}
+
+fn show_result(r: Result<QueryResult, String>, is_read: bool, diag: &mut Vec<String>) -> String {
+    match r {
+        Ok(QueryResult::Rows(rows)) => {
+            let mut out: Vec<String> =
+                rows.iterrows().map(|r| r.iter().map(show_dt).collect::<Vec<_>>().join(",")).collect();
+            out.sort();
+            format!("[{}]", out.join(";"))
+        }
+        Ok(QueryResult::RowsAffected(n)) => {
+            if is_read { format!("?affected{}", n) } else { format!("ok{}", n) }
+        }
+        Ok(QueryResult::Ddl(d)) => match d {
+            DdlResult::TableCreated { object_id, .. } => format!("ddl@{}", object_id),
+            _ => "ddl".into(),
+        },
+        Err(e) => {
+            diag.push(e.chars().filter(|c| *c != '\n').take(100).collect());
+            err_class(&e).to_string()
+        }
+    }
+}
+
+static COUNTER: AtomicU64 = AtomicU64::new(0);
+
+pub fn run_case(line: &str) -> String {
+    let Some((head, ops)) = parse_case(line) else { return "bad-op".into() };
+    let dir = std::env::temp_dir().join(format!("axv-reopen-{}-{}", std::process::id(), COUNTER.fetch_add(1, Ordering::SeqCst)));
+    let _ = std::fs::remove_dir_all(&dir);
+    std::fs::create_dir_all(&dir).unwrap();
+    let out = run_in(&dir, &head, &ops);
+    let _ = std::fs::remove_dir_all(&dir);
+    out
+}
+
+/// the observation made after every open and at the end of the case: contents (with the hidden row id) of every table
+/// that should exist, name resolution of every name that should not
+fn observe(db: &Database, live: &[Table], dead: &[String], diag: &mut Vec<String>) -> String {
+    let mut parts: Vec<String> = Vec::new();
+    for t in live {
+        let cols: Vec<&str> = t.cols.iter().map(|c| c.name.as_str()).collect();
+        let r = db.execute(&format!("SELECT row_id, {} FROM {}", cols.join(", "), t.name)).map_err(|e| e.to_string());
+        parts.push(format!("{}={}", t.name, show_result(r, true, diag)));
+    }
+    for n in dead {
+        let r = db.execute(&format!("SELECT * FROM {}", n)).map_err(|e| e.to_string());
+        parts.push(format!("!{}={}", n, show_result(r, true, diag)));
+    }
+    parts.join(" ")
+}
+
+fn cfg_of(c: &Cfg) -> DBConfig {
+    DBConfig::builder()
+        .page_size(c.page_size)
+        .cache_size(c.cache)
+        .pool_size(c.pool)
+        .min_keys_per_page(c.min_keys)
+        .num_siblings_per_side(c.siblings)
+        .build()
+}
+
+/// what the pager works with after create / open: page size, min keys, siblings (all three live in page zero)
+fn show_hdr(db: &Database) -> String {
+    let p = db.pager().read();
+    format!("hdr={},{},{}", p.page_size(), p.min_keys_per_page(), p.num_siblings_per_side())
+}
+
+fn run_in(dir: &std::path::Path, head: &Head, ops: &[Op]) -> String {
+    let path = dir.join("db.axm");
+    let mut db = match Database::create(&path, cfg_of(&head.cfg)) {
+        Ok(d) => d,
+        Err(e) => return format!("create-failed ## {}", e),
+    };
+    let mut diag: Vec<String> = Vec::new();
+    let mut sessions: BTreeMap<String, Session> = BTreeMap::new();
+    let mut outs: Vec<String> = Vec::new();
+    let mut live: Vec<Table> = Vec::new();
+    let mut dead: Vec<String> = vec!["zzneverzz".to_string()];
+    for op in ops {
+        let o = match op {
+            Op::Begin(s) => {
+                sessions.remove(s);
+                match db.session() {
+                    Ok(x) => {
+                        sessions.insert(s.clone(), x);
+                        "ok".to_string()
+                    }
+                    Err(e) => err_class(&e.to_string()).to_string(),
+                }
+            }
+            Op::Commit(s) => match sessions.get_mut(s) {
+                None => "nosession".into(),
+                Some(x) => {
+                    let r = x.commit_transaction();
+                    let o = match r {
+                        Ok(()) => "ok".to_string(),
+                        Err(e) => {
+                            diag.push(e.to_string().chars().take(100).collect());
+                            err_class(&e.to_string()).to_string()
+                        }
+                    };
+                    sessions.remove(s);
+                    o
+                }
+            },
+            Op::Rollback(s) => match sessions.get_mut(s) {
+                None => "nosession".into(),
+                Some(x) => {
+                    let r = x.abort_transaction();
+                    let o = match r {
+                        Ok(()) => "ok".to_string(),
+                        Err(e) => err_class(&e.to_string()).to_string(),
+                    };
+                    sessions.remove(s);
+                    o
+                }
+            },
+            Op::Drop(s) => match sessions.remove(s) {
+                None => "nosession".into(),
+                Some(x) => {
+                    drop(x);
+                    "ok".into()
+                }
+            },
+            Op::Exec(s, st) => match sessions.get_mut(s) {
+                None => "nosession".into(),
+                Some(x) => {
+                    let r = x.execute(&sql_of(st)).map_err(|e| e.to_string());
+                    show_result(r, matches!(st, Stmt::Sel { .. }), &mut diag)
+                }
+            },
+            Op::Auto(st) => {
+                let r = db.execute(&sql_of(st)).map_err(|e| e.to_string());
+                show_result(r, matches!(st, Stmt::Sel { .. }), &mut diag)
+            }
+            Op::Batch(sts) => {
+                let sqls: Vec<String> = sts.iter().map(sql_of).collect();
+                let refs: Vec<&str> = sqls.iter().map(|s| s.as_str()).collect();
+                match db.execute_batch(&refs) {
+                    Ok(rs) => {
+                        let parts: Vec<String> = rs
+                            .into_iter()
+                            .zip(sts.iter())
+                            .map(|(r, st)| show_result(Ok(r), matches!(st, Stmt::Sel { .. }), &mut diag))
+                            .collect();
+                        format!("batch({})", parts.join(" "))
+                    }
+                    Err(e) => {
+                        diag.push(e.to_string().chars().take(100).collect());
+                        format!("batch-{}", err_class(&e.to_string()))
+                    }
+                }
+            }
+            Op::Create(t) => {
+                let r = db.execute(&sql_create(t)).map_err(|e| e.to_string());
+                let o = show_result(r, false, &mut diag);
+                if o.starts_with("ddl") {
+                    live.retain(|x| x.name != t.name);
+                    live.push(t.clone());
+                    dead.retain(|x| *x != t.name);
+                }
+                o
+            }
+            Op::DropTable(n) => {
+                let r = db.execute(&format!("DROP TABLE {}", n)).map_err(|e| e.to_string());
+                let o = show_result(r, false, &mut diag);
+                if o == "ddl" {
+                    live.retain(|x| x.name != *n);
+                    if !dead.contains(n) {
+                        dead.push(n.clone());
+                    }
+                }
+                o
+            }
+            Op::Vacuum => match db.vacuum() {
+                Ok(_) => "ok".to_string(),
+                Err(e) => {
+                    diag.push(e.to_string().chars().take(100).collect());
+                    err_class(&e.to_string()).to_string()
+                }
+            },
+            Op::Burn(n) => {
+                let mut res = "ok".to_string();
+                for _ in 0..*n {
+                    match db.session() {
+                        Ok(mut s) => {
+                            if let Err(e) = s.commit_transaction() {
+                                res = err_class(&e.to_string()).to_string();
+                                break;
+                            }
+                        }
+                        Err(e) => {
+                            res = err_class(&e.to_string()).to_string();
+                            break;
+                        }
+                    }
+                }
+                res
+            }
+            Op::Tid => match db.session() {
+                Ok(mut s) => match s.commit_transaction() {
+                    Ok(()) => format!("tid{}", db.coordinator().get_last_committed()),
+                    Err(e) => err_class(&e.to_string()).to_string(),
+                },
+                Err(e) => err_class(&e.to_string()).to_string(),
+            },
+            Op::Reopen { how, cfg } => {
+                if *how == How::Leak {
+                    // the handle is dropped while sessions are still open; the sessions are never finished
+                    for (_, s) in std::mem::take(&mut sessions) {
+                        std::mem::forget(s);
+                    }
+                    drop(db);
+                } else {
+                    // sessions still open are dropped first (= rollback): the close is quiescent
+                    sessions.clear();
+                    if *how == How::Flush {
+                        if let Err(e) = db.flush() {
+                            diag.push(format!("flush: {}", e));
+                        }
+                    }
+                    drop(db);
+                }
+                let r = std::panic::catch_unwind(std::panic::AssertUnwindSafe(|| Database::open(&path, cfg_of(cfg))));
+                match r {
+                    Ok(Ok(d)) => {
+                        db = d;
+                        let h = show_hdr(&db);
+                        format!("reopen{{{} {}}}", h, observe(&db, &live, &dead, &mut diag))
+                    }
+                    Ok(Err(e)) => {
+                        let mut line = format!("{} open-failed", outs.join(" "));
+                        line.push_str(&format!(" ## {}", e.to_string().chars().take(200).collect::<String>()));
+                        return line;
+                    }
+                    Err(_) => {
+                        return format!("{} open-panicked", outs.join(" "));
+                    }
+                }
+            }
+        };
+        outs.push(o);
+    }
+    drop(sessions);
+    let fin = observe(&db, &live, &dead, &mut diag);
+    drop(db);
+    let mut line = format!("{} | {}", outs.join(" "), fin);
+    if !diag.is_empty() {
+        // messages of errors outside the expected classes first, then a few of the routine ones
+        let (mut odd, mut routine): (Vec<String>, Vec<String>) = diag.into_iter().partition(|m| err_class(m) == "other");
+        odd.truncate(8);
+        routine.truncate(4);
+        odd.extend(routine);
+        line.push_str(" ## ");
+        line.push_str(&odd.join(" // "));
+    }
+    line
+}
+
+// ------------------------------------------------------------------------------------------------ generation
+//
+// A case is built segment by segment; segments are separated by `reopen` ops.  The generator keeps a small picture of
+// the database (which keys are committed in which table, which sessions are open and what they have pending) so that
+// the case stays inside the clean region of the shared MVCC model:
+//   * keys are never reused (a deleted unique key is not inserted again);
+//   * a session deletes only committed rows that no other open session has touched;
+//   * UPDATE is issued only in autocommit mode while no session is open, and only on tables without a unique index;
+//   * statements that fail do so on their first row.
+// The finding families lift exactly one restriction each and carry a `kf:` tag.
+
+#[derive(Clone, Copy, PartialEq)]
+enum Fam {
+    Clean,
+    RollbackUpdate, // kf: updateKeepsInserterXmin (C03/C04)
+}
+
+struct TInfo {
+    name: String,
+    uniq: bool,          // u-shaped: (k:big*, v:int!, w:text); otherwise (k:big, v:int)
+    keys: Vec<i64>,      // committed, not deleted
+}
+
+struct SInfo {
+    name: String,
+    /// committed keys per table when the session began (what its snapshot sees)
+    seen: Vec<Vec<i64>>,
+    ins: Vec<(usize, i64)>, // (table index, key) inserted, pending
+    del: Vec<(usize, i64)>, // deleted, pending
+}
+
+struct Gen<'a> {
+    rng: &'a mut Rng,
+    ops: Vec<String>,
+    tables: Vec<TInfo>,
+    dropped: Vec<String>,
+    open: Vec<SInfo>,
+    next_key: i64,
+    next_tab: usize,
+    rb_delete: bool,
+    /// rows of 600 bytes and more (overflow chains from ~1 KiB per 4 KiB page): region `bigrows`, see cfg/C09.py
+    big: bool,
+    tags: Vec<String>,
+    // for the non-triviality rule
+    seg_alloc: bool,
+    seg_rollback: bool,
+    alloc_before: bool,
+    rollback_before: bool,
+    nt: bool,
+}
+
+const PAGE_SIZES: [usize; 4] = [4096, 8192, 16384, 65536];
+const CACHES: [usize; 3] = [64, 512, 10000];
+
+fn gen_cfg(rng: &mut Rng) -> String {
+    let ps = *rng.pick(&PAGE_SIZES);
+    // 4 KiB pages with a minimum key count of 4 or 5 are the region of the catalog-overflow finding (cfg/C09.py): kept rarer
+    let mk = if ps == 4096 && rng.chance(2, 3) { 3 } else { rng.range(3, 5) };
+    format!("{} {} {} {} {}", ps, rng.pick(&CACHES), rng.range(1, 4), mk, rng.range(1, 3))
+}
+
+impl<'a> Gen<'a> {
+    fn tag(&mut self, t: &str) {
+        if !self.tags.iter().any(|x| x == t) {
+            self.tags.push(t.to_string());
+        }
+    }
+    fn push(&mut self, op: String) {
+        self.ops.push(op);
+    }
+    fn key(&mut self) -> i64 {
+        self.next_key += 1;
+        self.next_key
+    }
+    fn text(&mut self) -> String {
+        let hi = if self.big { 10 } else { 6 };
+        if self.big {
+            self.tag("bigrows");
+        }
+        match self.rng.below(hi) {
+            0..=4 => format!("'{}'", self.rng.pick(&["a", "abc", "row", "xyzzy", "q"])),
+            5 => "null".into(),
+            6 => {
+                self.tag("text_600B");
+                format!("^{}{}", self.rng.pick(&["ab", "xyz"]), 300)
+            }
+            7 => {
+                self.tag("text_3-6KiB");
+                format!("^{}{}", self.rng.pick(&["ab", "cde"]), self.rng.range(1500, 2000))
+            }
+            8 => {
+                self.tag("text_9-20KiB");
+                format!("^{}{}", self.rng.pick(&["abc", "wxyz"]), self.rng.range(3000, 5000))
+            }
+            _ => {
+                // a row image must fit into one 40 KB block of the write-ahead log: larger rows are refused with an I/O error
+                self.tag("text_20-36KiB");
+                format!("^abcdefghij{}", self.rng.range(2000, 3600))
+            }
+        }
+    }
+    fn row(&mut self, ti: usize, k: i64) -> String {
+        if self.tables[ti].uniq {
+            let w = self.text();
+            format!("{} {} {}", k, self.rng.range(0, 99), w)
+        } else {
+            format!("{} {}", k, self.rng.range(0, 99))
+        }
+    }
+    fn create(&mut self, uniq: bool) {
+        let name = if self.tables.is_empty() && !uniq {
+            "t".to_string()
+        } else if uniq && !self.tables.iter().any(|t| t.name == "u") && !self.dropped.iter().any(|d| d == "u") {
+            "u".to_string()
+        } else {
+            self.next_tab += 1;
+            format!("x{}", self.next_tab)
+        };
+        let spec = if uniq { format!("{}(k:big*,v:int!,w:text)", name) } else { format!("{}(k:big,v:int)", name) };
+        self.push(format!("create {}", spec));
+        self.tables.push(TInfo { name, uniq, keys: vec![] });
+        self.seg_alloc = true;
+        self.tag("create");
+    }
+    fn locked(&self, ti: usize, k: i64) -> bool {
+        self.open.iter().any(|s| s.del.contains(&(ti, k)))
+    }
+    fn pick_table(&mut self) -> Option<usize> {
+        if self.tables.is_empty() { None } else { Some(self.rng.below(self.tables.len() as u64) as usize) }
+    }
+    fn auto_insert(&mut self) {
+        let Some(ti) = self.pick_table() else { return };
+        let n = if self.rng.chance(1, 4) { self.rng.range(2, 3) } else { 1 };
+        let mut parts = Vec::new();
+        let mut ks = Vec::new();
+        for _ in 0..n {
+            let k = self.key();
+            ks.push(k);
+            parts.push(self.row(ti, k));
+        }
+        let name = self.tables[ti].name.clone();
+        self.push(format!("db ins {} {}", name, parts.join(" , ")));
+        self.tables[ti].keys.extend(ks);
+        self.seg_alloc = true;
+        self.tag("auto_insert");
+    }
+    fn auto_batch(&mut self) {
+        let Some(ti) = self.pick_table() else { return };
+        let name = self.tables[ti].name.clone();
+        let n = self.rng.range(2, 3);
+        let mut parts = Vec::new();
+        for _ in 0..n {
+            let k = self.key();
+            let r = self.row(ti, k);
+            parts.push(format!("ins {} {}", name, r));
+            self.tables[ti].keys.push(k);
+        }
+        self.push(format!("db batch {}", parts.join(" & ")));
+        self.seg_alloc = true;
+        self.tag("batch");
+    }
+    fn auto_delete(&mut self) {
+        let Some(ti) = self.pick_table() else { return };
+        let cand: Vec<i64> = self.tables[ti].keys.iter().copied().filter(|k| !self.locked(ti, *k)).collect();
+        if cand.is_empty() {
+            return;
+        }
+        let k = *self.rng.pick(&cand);
+        let name = self.tables[ti].name.clone();
+        self.push(format!("db del {} where k eq {}", name, k));
+        self.tables[ti].keys.retain(|x| *x != k);
+        self.tag("auto_delete");
+    }
+    fn auto_update(&mut self) {
+        // only while no session is open, only on tables without a unique index (see the header of this section)
+        if !self.open.is_empty() {
+            return;
+        }
+        let plain: Vec<usize> = (0..self.tables.len()).filter(|i| !self.tables[*i].uniq && !self.tables[*i].keys.is_empty()).collect();
+        if plain.is_empty() {
+            return;
+        }
+        let ti = *self.rng.pick(&plain);
+        let k = *self.rng.pick(&self.tables[ti].keys);
+        let name = self.tables[ti].name.clone();
+        if self.rng.chance(1, 2) {
+            let d = self.rng.range(1, 9);
+            self.push(format!("db upd {} v add {} where k eq {}", name, d, k));
+        } else {
+            let d = self.rng.range(100, 199);
+            self.push(format!("db upd {} v set {} where k eq {}", name, d, k));
+        }
+        self.tag("auto_update");
+    }
+    fn read(&mut self, who: Option<usize>) {
+        let Some(ti) = self.pick_table() else { return };
+        let name = self.tables[ti].name.clone();
+        let q = match self.rng.below(4) {
+            0 | 1 => format!("sel {}", name),
+            2 => format!("sel {} where k ge {}", name, self.rng.range(1, self.next_key.max(1))),
+            _ => format!("sel {} where v lt {}", name, self.rng.range(0, 99)),
+        };
+        match who {
+            Some(si) => {
+                let s = self.open[si].name.clone();
+                self.push(format!("{} {}", s, q));
+            }
+            None => self.push(format!("db {}", q)),
+        }
+    }
+    fn failing(&mut self, who: Option<usize>) {
+        // statements that must be rejected, each on its first row / at bind time
+        let uniq: Vec<usize> = (0..self.tables.len()).filter(|i| self.tables[*i].uniq).collect();
+        let mut cands: Vec<String> = Vec::new();
+        for ti in &uniq {
+            let name = self.tables[*ti].name.clone();
+            // a duplicate of a key that is committed now and, for a session, was already committed when it began
+            let k = self.tables[*ti].keys.iter().copied().find(|k| match who {
+                Some(si) => self.open[si].seen.get(*ti).map(|v| v.contains(k)).unwrap_or(false),
+                None => true,
+            });
+            if let Some(k) = k {
+                if !self.locked(*ti, k) {
+                    cands.push(format!("ins {} {} 1 'dup'", name, k));
+                }
+            }
+            cands.push(format!("ins {} {} null 'nn'", name, self.next_key + 1000));
+        }
+        if let Some(d) = self.dropped.first() {
+            cands.push(format!("sel {}", d));
+            cands.push(format!("ins {} 1 1", d));
+        }
+        cands.push("sel nosuch".into());
+        let st = self.rng.pick(&cands).clone();
+        if st.contains("'dup'") {
+            self.tag("probe_duplicate_key");
+        }
+        if st.contains("'nn'") {
+            self.tag("probe_not_null");
+        }
+        match who {
+            Some(si) => {
+                let s = self.open[si].name.clone();
+                self.push(format!("{} {}", s, st));
+            }
+            None => {
+                self.push(format!("db {}", st));
+                self.seg_rollback = true; // a failing autocommit statement is a rolled-back transaction
+            }
+        }
+    }
+    fn sess_begin(&mut self) {
+        if self.open.len() >= 3 || self.tables.is_empty() {
+            return;
+        }
+        let mut i = 1;
+        while self.open.iter().any(|s| s.name == format!("s{}", i)) {
+            i += 1;
+        }
+        let name = format!("s{}", i);
+        self.push(format!("{} begin", name));
+        let seen = self.tables.iter().map(|t| t.keys.clone()).collect();
+        self.open.push(SInfo { name, seen, ins: vec![], del: vec![] });
+        self.seg_alloc = true;
+        self.tag("session");
+        if self.open.len() >= 2 {
+            self.tag("concurrent_sessions");
+        }
+    }
+    fn sess_stmt(&mut self, fam: Fam) {
+        if self.open.is_empty() {
+            return;
+        }
+        let si = self.rng.below(self.open.len() as u64) as usize;
+        let s = self.open[si].name.clone();
+        match self.rng.below(10) {
+            0..=4 => {
+                let Some(ti) = self.pick_table() else { return };
+                let k = self.key();
+                let r = self.row(ti, k);
+                let name = self.tables[ti].name.clone();
+                self.push(format!("{} ins {} {}", s, name, r));
+                self.open[si].ins.push((ti, k));
+                self.tag("session_insert");
+            }
+            5 | 6 => {
+                let Some(ti) = self.pick_table() else { return };
+                let cand: Vec<i64> = self.tables[ti].keys.iter().copied().filter(|k| !self.locked(ti, *k)).collect();
+                if cand.is_empty() {
+                    return;
+                }
+                let k = *self.rng.pick(&cand);
+                let name = self.tables[ti].name.clone();
+                if fam == Fam::RollbackUpdate && !self.tables[ti].uniq && self.rng.chance(1, 2) {
+                    let d = self.rng.range(200, 299);
+                    self.push(format!("{} upd {} v set {} where k eq {}", s, name, d, k));
+                    self.open[si].del.push((ti, k)); // counts as touched
+                    self.open[si].ins.push((usize::MAX, k)); // marker: an update, nothing to apply on commit
+                    self.tag("session_update");
+                } else {
+                    self.push(format!("{} del {} where k eq {}", s, name, k));
+                    self.open[si].del.push((ti, k));
+                    self.tag("session_delete");
+                }
+            }
+            7 | 8 => self.read(Some(si)),
+            _ => self.failing(Some(si)),
+        }
+    }
+    fn sess_end(&mut self, si: usize, how: &str) {
+        let s = self.open.remove(si);
+        self.push(format!("{} {}", s.name, how));
+        let updated: Vec<i64> = s.ins.iter().filter(|(t, _)| *t == usize::MAX).map(|(_, k)| *k).collect();
+        if how == "commit" {
+            for (ti, k) in &s.ins {
+                if *ti != usize::MAX {
+                    self.tables[*ti].keys.push(*k);
+                }
+            }
+            for (ti, k) in &s.del {
+                if !updated.contains(k) {
+                    self.tables[*ti].keys.retain(|x| x != k);
+                }
+            }
+            self.tag("commit");
+        } else {
+            self.seg_rollback = true;
+            if s.del.iter().any(|(_, k)| !updated.contains(k)) {
+                self.rb_delete = true;
+            }
+            if !updated.is_empty() {
+                self.tag("kf:rollback_update");
+            }
+            self.tag(if how == "rollback" { "rollback" } else { "session_drop" });
+        }
+    }
+    fn end_some_session(&mut self) {
+        if self.open.is_empty() {
+            return;
+        }
+        let si = self.rng.below(self.open.len() as u64) as usize;
+        let how = match self.rng.below(10) {
+            0..=4 => "commit",
+            5..=7 => "rollback",
+            _ => "drop",
+        };
+        self.sess_end(si, how);
+    }
+    fn close_all_sessions(&mut self) {
+        while !self.open.is_empty() {
+            self.end_some_session();
+        }
+    }
+    fn drop_table(&mut self) {
+        if self.tables.len() < 2 || !self.open.is_empty() {
+            return;
+        }
+        let ti = self.rng.below(self.tables.len() as u64) as usize;
+        let t = self.tables.remove(ti);
+        self.push(format!("droptable {}", t.name));
+        if !self.dropped.contains(&t.name) {
+            self.dropped.push(t.name.clone());
+        }
+        self.tag("drop_table");
+        // sometimes the name comes back as a new, empty table
+        if self.rng.chance(1, 3) {
+            let spec = if t.uniq { format!("{}(k:big*,v:int!,w:text)", t.name) } else { format!("{}(k:big,v:int)", t.name) };
+            self.push(format!("create {}", spec));
+            self.dropped.retain(|d| *d != t.name);
+            self.tables.push(TInfo { name: t.name, uniq: t.uniq, keys: vec![] });
+            self.tag("recreate_dropped_name");
+        }
+    }
+    fn segment(&mut self, fam: Fam, len: usize) {
+        for _ in 0..len {
+            match self.rng.below(20) {
+                0..=3 => self.auto_insert(),
+                4 => self.auto_batch(),
+                5 => self.auto_delete(),
+                6 => self.auto_update(),
+                7 => self.read(None),
+                8 => self.failing(None),
+                9 | 10 => self.sess_begin(),
+                11..=15 => self.sess_stmt(fam),
+                16 | 17 => self.end_some_session(),
+                18 => {
+                    self.push("tid".into());
+                    self.seg_alloc = true;
+                    self.tag("tid");
+                }
+                _ => {
+                    if self.open.is_empty() {
+                        if self.rng.chance(1, 2) {
+                            let u = self.rng.chance(1, 2);
+                            self.create(u);
+                        } else {
+                            self.drop_table();
+                        }
+                    }
+                }
+            }
+        }
+    }
+    fn reopen(&mut self) {
+        let how = match self.rng.below(10) {
+            0..=3 => "drop",
+            4..=7 => "flush",
+            _ => "leak",
+        };
+        if how == "leak" && !self.open.is_empty() {
+            self.tag("open_session_at_close");
+            self.seg_rollback = true;
+            if self.open.iter().any(|s| !s.del.is_empty()) {
+                self.rb_delete = true;
+            }
+            if self.open.iter().any(|s| s.ins.iter().any(|(t, _)| *t == usize::MAX)) {
+                self.tag("kf:rollback_update");
+            }
+            self.open.clear();
+        } else if !self.open.is_empty() {
+            // either finish them in the history or let the close roll them back
+            if self.rng.chance(1, 2) {
+                self.close_all_sessions();
+            } else {
+                self.tag("session_dropped_by_close");
+                self.seg_rollback = true;
+                if self.open.iter().any(|s| !s.del.is_empty()) {
+                    self.rb_delete = true;
+                }
+                if self.open.iter().any(|s| s.ins.iter().any(|(t, _)| *t == usize::MAX)) {
+                    self.tag("kf:rollback_update");
+                }
+                self.open.clear();
+            }
+        }
+        if self.open.is_empty() && self.rng.chance(1, 4) {
+            self.push("vacuum".into());
+            self.tag("vacuum_before_close");
+            if self.rb_delete {
+                self.tag("vacuum_after_rolled_back_delete");
+            }
+        }
+        let cfg = gen_cfg(self.rng);
+        self.push(format!("reopen {} {}", how, cfg));
+        self.tag(&format!("close_{}", how));
+        if self.seg_alloc {
+            self.alloc_before = true;
+        }
+        if self.seg_rollback {
+            self.rollback_before = true;
+        }
+        self.seg_alloc = false;
+        self.seg_rollback = false;
+        // freshness probes right after the open: a transaction id, an accepted and a rejected insert, a new table
+        self.push("tid".into());
+        if let Some(ti) = (0..self.tables.len()).find(|i| self.tables[*i].uniq && !self.tables[*i].keys.is_empty()) {
+            let k = self.tables[ti].keys[0];
+            let name = self.tables[ti].name.clone();
+            self.push(format!("db ins {} {} 1 'dup'", name, k));
+            self.tag("probe_duplicate_key");
+        }
+        if let Some(ti) = self.pick_table() {
+            let k = self.key();
+            let r = self.row(ti, k);
+            let name = self.tables[ti].name.clone();
+            self.push(format!("db ins {} {}", name, r));
+            self.tables[ti].keys.push(k);
+        }
+        if self.rng.chance(1, 3) {
+            let u = self.rng.chance(1, 2);
+            self.create(u);
+            self.tag("create_after_reopen");
+        }
+        if self.alloc_before && self.rollback_before {
+            self.nt = true; // allocation after the reopen is guaranteed by the probes
+        }
+    }
+}
+
+fn gen_history(rng: &mut Rng, fam: Fam, big: bool, n_reopen: usize, seg_len: usize) -> Case {
+    let head = gen_cfg(rng);
+    let mut g = Gen {
+        rng,
+        ops: vec![],
+        tables: vec![],
+        dropped: vec![],
+        open: vec![],
+        next_key: 0,
+        next_tab: 0,
+        rb_delete: false,
+        big,
+        tags: vec![],
+        seg_alloc: false,
+        seg_rollback: false,
+        alloc_before: false,
+        rollback_before: false,
+        nt: false,
+    };
+    g.create(false);
+    g.create(true);
+    for _ in 0..n_reopen {
+        let l = 2 + g.rng.below(seg_len as u64) as usize;
+        g.segment(fam, l);
+        g.reopen();
+    }
+    let l = 1 + g.rng.below(seg_len as u64) as usize;
+    g.segment(fam, l);
+    g.close_all_sessions();
+    let mut tags = g.tags.clone();
+    tags.push(format!("reopens{}", n_reopen));
+    let hw: Vec<&str> = head.split(' ').collect();
+    tags.push(format!("create_ps{}", hw[0]));
+    tags.push(format!("create_cache{}", hw[1]));
+    if g.nt {
+        tags.push("nt".into());
+    }
+    if tags.iter().any(|t| t == "bigrows") {
+        tags.push("kf:bigrows".into());
+    }
+    // small pages and a high minimum key count (= small inline limit, so catalog rows spill early): the conditions under
+    // which the B+tree's aliased overflow chains have been seen to bite the catalog (cfg/C09.py)
+    if hw[0] == "4096" && hw[3] != "3" && !tags.iter().any(|t| t.starts_with("kf:")) {
+        tags.push("kf:overflow_alias".into());
+    }
+    if !tags.iter().any(|t| t.starts_with("kf:")) {
+        tags.push("clean".into());
+    }
+    Case { line: format!("reopen {} | {}", head, g.ops.join(" ; ")), tags }
+}
+
+/// more than 255 rows inserted into one table (each insert re-versions the table's catalog row), then reopen
+fn gen_many_inserts(rng: &mut Rng) -> Case {
+    let mut ops: Vec<String> = vec!["create t(k:big,v:int)".into()];
+    let mut k = 0;
+    let total = 256 + rng.range(4, 60);
+    while k < total {
+        let n = rng.range(1, 40).min(total - k);
+        let rows: Vec<String> = (0..n).map(|i| format!("{} {}", k + i + 1, (k + i) % 7)).collect();
+        ops.push(format!("db ins t {}", rows.join(" , ")));
+        k += n;
+    }
+    ops.push("s1 begin".into());
+    ops.push(format!("s1 ins t {} 1", k + 1));
+    ops.push("s1 rollback".into());
+    ops.push(format!("reopen {} {}", rng.pick(&["drop", "flush"]), gen_cfg(rng)));
+    ops.push(format!("db ins t {} 2", k + 2));
+    ops.push("tid".into());
+    Case { line: format!("reopen {} | {}", gen_cfg(rng), ops.join(" ; ")), tags: vec!["inserts>255".into(), "nt".into(), "clean".into()] }
+}
+
+/// more transactions than the aborted bitmap of page zero has bits, with rollbacks at ids of every magnitude
+/// (≈ 5, 600, 2 600, 5 600, just below and above 8 192)
+pub fn gen_many_txns(rng: &mut Rng) -> Case {
+    let mut ops: Vec<String> = vec!["create t(k:big,v:int)".into(), "db ins t 1 10".into()];
+    let mut key = 1;
+    let mut used: i64 = 2; // transaction ids handed out so far
+    let mut rollback = |ops: &mut Vec<String>, used: &mut i64| {
+        key += 1;
+        ops.push("s1 begin".into());
+        ops.push(format!("s1 ins t {} {}", key, key * 10));
+        ops.push("s1 rollback".into());
+        key += 1;
+        ops.push(format!("db ins t {} {}", key, key * 10));
+        *used += 2;
+    };
+    rollback(&mut ops, &mut used);
+    for target in [600i64, 2600, 5600, 8150] {
+        let t = target + rng.range(0, 30);
+        ops.push(format!("burn {}", t - used));
+        used = t;
+        rollback(&mut ops, &mut used);
+    }
+    let t = 8192 + rng.range(0, 40);
+    ops.push(format!("burn {}", t - used));
+    ops.push("tid".into());
+    ops.push("s1 begin".into());
+    ops.push("s1 ins t 100 1000".into());
+    ops.push("s1 del t where k eq 1".into());
+    ops.push("s1 rollback".into());
+    ops.push("db ins t 101 1010".into());
+    ops.push("db sel t".into());
+    ops.push(format!("reopen {} {}", rng.pick(&["drop", "flush"]), gen_cfg(rng)));
+    ops.push("db sel t".into());
+    ops.push("tid".into());
+    ops.push("db ins t 102 1020".into());
+    Case {
+        line: format!("reopen {} | {}", gen_cfg(rng), ops.join(" ; ")),
+        tags: vec!["txn_ids>8192".into(), "nt".into(), "kf:txn_ids>8192".into()],
+    }
+}
+
+/// a run of consecutive rolled-back transactions (every residue of the id modulo the bitmap's bytes and words), each
+/// with an INSERT or a DELETE, then close and open; `start` = number of transactions burnt first (the sweep across
+/// id 8192 pins the exact size of the bitmap: ids below it must be remembered)
+fn gen_rollback_sweep(rng: &mut Rng, start: i64, n: i64) -> Case {
+    let mut ops: Vec<String> = vec!["create t(k:big,v:int)".into()];
+    let base = 20;
+    let rows: Vec<String> = (1..=base).map(|k| format!("{} {}", k, k)).collect();
+    ops.push(format!("db ins t {}", rows.join(" , ")));
+    if start > 0 {
+        ops.push(format!("burn {}", start));
+    }
+    ops.push("tid".into());
+    for i in 0..n {
+        ops.push("s1 begin".into());
+        if i % 3 == 2 {
+            ops.push(format!("s1 del t where k eq {}", 1 + (i % base)));
+        } else {
+            ops.push(format!("s1 ins t {} {}", 1000 + i, i));
+        }
+        ops.push(if i % 5 == 4 { "s1 drop".into() } else { "s1 rollback".into() });
+    }
+    ops.push("tid".into());
+    ops.push(format!("reopen {} {}", rng.pick(&["drop", "flush"]), gen_cfg(rng)));
+    ops.push("tid".into());
+    ops.push("db ins t 5000 1".into());
+    let mut tags = vec!["rollback_sweep".to_string(), "nt".into()];
+    if start + n + 4 >= 8192 {
+        tags.push("txn_ids>8192".into());
+        tags.push("kf:txn_ids>8192".into());
+    } else {
+        tags.push("clean".into());
+    }
+    Case { line: format!("reopen {} | {}", gen_cfg(rng), ops.join(" ; ")), tags }
+}
+
+impl Engine for ReopenEngine {
+    fn gen_cases(&self, rng: &mut Rng, tier: Tier) -> Vec<Case> {
+        let quick = tier == Tier::Quick;
+        let mut out = Vec::new();
+        for i in 0..(if quick { 150 } else { 1500 }) {
+            // 10 % rolled-back UPDATEs (finding of C03/C04), 12 % big rows (B+tree finding of C10/C12), ~7 % catalog overflow risk, ≥ 70 % clean
+            let fam = if i % 10 == 9 { Fam::RollbackUpdate } else { Fam::Clean };
+            let big = i % 10 == 3 || i % 50 == 7;
+            let n_reopen = rng.range(1, 4) as usize;
+            let seg = if rng.chance(1, 5) { 16 } else { 8 };
+            out.push(gen_history(rng, fam, big, n_reopen, seg));
+        }
+        for _ in 0..(if quick { 2 } else { 10 }) {
+            out.push(gen_many_inserts(rng));
+        }
+        for _ in 0..(if quick { 2 } else { 6 }) {
+            let start = rng.range(0, 200);
+            out.push(gen_rollback_sweep(rng, start, 140));
+        }
+        if !quick {
+            for _ in 0..2 {
+                out.push(gen_many_txns(rng));
+            }
+            let start = 8192 - rng.range(40, 90);
+            out.push(gen_rollback_sweep(rng, start, 140));
+        }
+        out
+    }
+    fn exec(&mut self, line: &str) -> String {
+        run_case(line)
+    }
+    fn timeout_ms(&self) -> u64 {
+        180_000
     }
 }
 
